@@ -45,6 +45,9 @@ impl Vm {
             (VCell::Nil, VCell::Nil) => Ok(true),
             (VCell::Pair(_, _), VCell::Pair(_, _)) => Ok(left == right),
             (VCell::Char(left), VCell::Char(right)) => Ok(left == right),
+            // symbols are interned, so two dereferenced symbols with one name are one
+            // symbol; equal? reaches this with the tail of an improper list
+            (VCell::Symbol(left), VCell::Symbol(right)) => Ok(left == right),
             (VCell::String(left), VCell::String(right)) => Ok(left == right),
             _ => Ok(false),
         }
